@@ -74,6 +74,20 @@ impl Prop for C18 {
         }
         for n in 0..256 { v.push(format!("msgtype {}", n)); v.push(format!("apdir {}", n)); v.push(format!("segtype {}", n)); }
         for c in 0..256 { for s in 0..256 { v.push(format!("details {} {}", c, s)); } }
+        // the same pairs on NOTIFICATIONs that carry data (the data must not influence code/subcode):
+        // an embedded (code, subcode) pair as RFC 8538 Hard Reset carries it, one octet, and random data
+        for c in 0..256u32 { for s in 0..256u32 {
+            let d = match (c + s) % 4 {
+                0 => vec![6u8, 2],
+                1 => vec![4u8, 0, 1, 2, 3],
+                2 => vec![rng.u8()],
+                _ => { let n = rng.usize(2, 12); rng.bytes(n) }
+            };
+            v.push(format!("details {} {} {}", c, s, hex(&d)));
+        } }
+        for c in [0u32, 1, 2, 3, 4, 5, 6, 7, 8, 255] { for s in 0..16u32 { for d in [[6u8, 2], [4, 0], [2, 7], [6, 9], [1, 1], [255, 255]] {
+            v.push(format!("details {} {} {}", c, s, hex(&d)));
+        } } }
         // AFI/SAFI: all SAFIs for the AFIs around the named ones, plus random pairs
         for a in [0u16, 1, 2, 3, 24, 25, 26, 255, 256, 257, 511, 512, 65535] {
             for s in 0..256 { v.push(format!("afisafi {} {}", a, s)); }
@@ -144,11 +158,16 @@ impl Prop for C18 {
                 },
                 _ => "bad-op".into(),
             },
-            ["details", c, s] => match (c.parse::<u8>(), s.parse::<u8>()) {
+            ["details", c, s] | ["details", c, s, _] => match (c.parse::<u8>(), s.parse::<u8>()) {
                 (Ok(c), Ok(s)) => {
+                    let data = if w.len() == 4 { match unhex(w[3]) { Some(d) => d, None => return "bad-op".into() } } else { vec![] };
+                    if data.len() > 4000 { return "bad-op".into(); }
                     let mut m = header_with_type(3);
-                    m[17] = 21;
+                    let total = 21 + data.len();
+                    m[16] = (total >> 8) as u8;
+                    m[17] = total as u8;
                     m.push(c); m.push(s);
+                    m.extend_from_slice(&data);
                     let msg = NotificationMessage::from_octets(m).unwrap();
                     let d = msg.details();
                     let raw = d.raw();
@@ -164,6 +183,7 @@ impl Prop for C18 {
 
     /// the property itself, evaluated on the implementation's reply
     fn oracle(&self, line: &str, reply: &str) -> Result<(), String> {
+        if reply == "bad-op" { return Ok(()); }
         let w: Vec<&str> = line.split(' ').collect();
         let r: Vec<&str> = reply.split(' ').collect();
         match w.as_slice() {
@@ -198,7 +218,7 @@ impl Prop for C18 {
             ["apdir", n] | ["segtype", n] => {
                 if reply == "err" || (r.len() == 2 && r[1] == *n) { Ok(()) } else { Err(reply.into()) }
             }
-            ["details", c, s] => {
+            ["details", c, s] | ["details", c, s, _] => {
                 if r.len() == 3 && r[1] == *c && r[2] == *s { Ok(()) } else {
                     Err(format!("details re-encode to {} {}", r.get(1).unwrap_or(&"?"), r.get(2).unwrap_or(&"?")))
                 }
